@@ -192,6 +192,26 @@ def enum_variants_from_source():
     return table
 
 
+def variant_field_index(enum, variant, field):
+    """index of a named field inside a struct-like enum variant (declaration order), read from the repository's source."""
+    for root, _, files in os.walk(os.path.join(ov.REPO, "src")):
+        for f in files:
+            if not f.endswith(".rs"):
+                continue
+            txt = open(os.path.join(root, f), errors="replace").read()
+            m = re.search(r"enum\s+%s(?:<[^>]*>)?\s*\{(.*?)\n\}" % re.escape(enum), txt, re.S)
+            if not m:
+                continue
+            vm = re.search(r"\b%s\s*\{(.*?)\}" % re.escape(variant), re.sub(r"//[^\n]*", "", m.group(1)), re.S)
+            if not vm:
+                continue
+            names = [re.match(r"\s*(\w+)\s*:", p_) for p_ in split_top(vm.group(1))]
+            names = [n.group(1) for n in names if n]
+            if field in names:
+                return names.index(field)
+    return None
+
+
 def struct_field_index(struct, field):
     for root, _, files in os.walk(os.path.join(ov.REPO, "src")):
         for f in files:
